@@ -322,6 +322,11 @@ def work(job):
                 if v != "unsat-oracles":
                     continue
                 cause = "plain"
+                if not full and impl_bg is None and block is None:
+                    # no trace: mirror of the implementation's background from the script (terms that carry a live, nested
+                    # or popped name are not hard-asserted)
+                    carrying = {cc.norm(b) for b in list(top.values()) + list(nest.values()) + list(st.popped_named.values())}
+                    impl_bg = [u for u in unnamed if cc.norm(u) not in carrying]
                 if not full and impl_bg is not None and (rec.get("replay_ok") or block is None) and \
                         any(not cc.equivalent_to_some(logic, idecls, u, impl_bg) for u in unnamed):
                     # (replay_ok: the traced background is exactly the current assertions for which contains() is false;
